@@ -55,9 +55,13 @@ def mk_args(ctx, n, pattern, syms, W, calls_log):
         v = ctx.int("arg%d" % i)
         ctx.assume(z3.And(v >= -(1 << (W - 1)), v < (1 << W)))          # integers that fit a register
         if kind == "callable":
-            def f(c, v=v, i=i):
+            v_other = ctx.int("arg%d_at_other_site" % i)
+            ctx.assume(z3.And(v_other >= -(1 << (W - 1)), v_other < (1 << W)))
+
+            def f(c, v=v, i=i, v_other=v_other):
                 calls_log.append((i, c))
-                return SymInt(v)
+                # the value depends on where the patch is inserted (as a per-site tag would)
+                return SymInt(v if getattr(c, "offset", 0) == 0 else v_other)
             args.append(f)
         else:
             args.append(SymInt(v))
@@ -118,6 +122,11 @@ def x86_harness(name, isa, ff, AL, cleanup, adj_known, pattern):
         if adj_known:
             # what the prologue generators can report (C16): non-negative multiples of the slot size
             ctx.assume(z3.And(zint(adj) >= 0, zint(adj) < (1 << 20), zint(adj) % w == 0))
+        if pattern == "callable":
+            # the same patch object is inserted at another site first: nothing of that insertion may leak into this one
+            other = InsertionContext(module=mod, function=None, block=None, offset=1, stack_adjustment=adj)
+            patch.get_asm(other)
+            del calls_log[:]
         ictx = InsertionContext(module=mod, function=None, block=None, offset=0, stack_adjustment=adj)
         text = patch.get_asm(ictx)
         ctx.cover("generated")
@@ -220,6 +229,9 @@ def arm64_harness(pattern):
         want_clob = set(conv_regs[:min(n, nr)]) | {"x30"} | ({"x0"} if n > nr else set())
         ctx.prove("ARM64/constraints/declares-argument-registers-x30-and-x0-when-used",
                   z3.BoolVal(patch.constraints.clobbers_flags and patch.constraints.preserve_caller_saved_registers and set(patch.constraints.clobbers_registers) == want_clob))
+        if pattern == "callable":
+            patch.get_asm(InsertionContext(module=mod, function=None, block=None, offset=1, stack_adjustment=0))
+            del calls_log[:]
         ictx = InsertionContext(module=mod, function=None, block=None, offset=0, stack_adjustment=SymInt(ctx.int("stack_adjustment")))
         text = patch.get_asm(ictx)
         ctx.cover("generated")
@@ -338,13 +350,20 @@ def x86_replay(name, isa, ff, AL, cleanup, adj_known, pattern):
             conv = CallingConventionDesc(tuple(regpool[:nr]), AL, bool(cleanup), val("shadow_space", 0))
             args, desc, exp = [], [], []
             for i in range(n):
-                kind = {"int": "int", "sym": "sym", "mixed": ("int", "sym")[i % 2], "callable": "int"}[pattern]
+                kind = {"int": "int", "sym": "sym", "mixed": ("int", "sym")[i % 2], "callable": "callable"}[pattern]
                 a = syms[i] if kind == "sym" else val("arg%d" % i, i)
-                args.append(a)
+                if kind == "callable":
+                    args.append(lambda c, a=a, o=val("arg%d_at_other_site" % i, 1000 + i): a if c.offset == 0 else o)
+                else:
+                    args.append(a)
                 desc.append(a.name if kind == "sym" else a)
                 exp.append(("sym", a.name) if kind == "sym" else ("int", a))
             store.update(conv=conv, exp=exp, n=n, nr=nr)
-            return CP.CallPatch(callee, args, conv), InsertionContext(mod, None, None, 0, stack_adjustment=val("stack_adjustment", 0) if adj_known else None), desc
+            patch = CP.CallPatch(callee, args, conv)
+            adjv = val("stack_adjustment", 0) if adj_known else None
+            if pattern == "callable":
+                patch.get_asm(InsertionContext(mod, None, None, 1, stack_adjustment=adjv))      # the same patch inserted at another site first
+            return patch, InsertionContext(mod, None, None, 0, stack_adjustment=adjv), desc
         info = _replay_common(factory, isa, ff, clause, model)
         if info.get("confirmed", 0) is None:
             return info
@@ -377,13 +396,18 @@ def arm64_replay(pattern):
             conv = CallingConventionDesc(tuple("x%d" % i for i in range(nr)), 16, True, 0)
             args, desc, exp = [], [], []
             for i in range(n):
-                kind = {"int": "int", "sym": "sym", "mixed": ("int", "sym")[i % 2], "callable": "int"}[pattern]
+                kind = {"int": "int", "sym": "sym", "mixed": ("int", "sym")[i % 2], "callable": "callable"}[pattern]
                 a = syms[i] if kind == "sym" else val("arg%d" % i, i)
-                args.append(a)
+                if kind == "callable":
+                    args.append(lambda c, a=a, o=val("arg%d_at_other_site" % i, 1000 + i): a if c.offset == 0 else o)
+                else:
+                    args.append(a)
                 desc.append(a.name if kind == "sym" else a)
                 exp.append(("sym", a.name) if kind == "sym" else ("int", a))
             store.update(conv=conv, exp=exp, n=n, nr=nr)
             p = CP.CallPatch(callee, args, conv)
+            if pattern == "callable":
+                p.get_asm(InsertionContext(mod, None, None, 1, stack_adjustment=0))
             store["constraints"] = p.constraints
             return p, InsertionContext(mod, None, None, 0, stack_adjustment=0), desc
         info = _replay_common(factory, gtirb.Module.ISA.ARM64, gtirb.Module.FileFormat.ELF, clause, model, arm=True)
